@@ -309,6 +309,10 @@ def _r3(chk, repo):
         sims = [x for x in t if x.startswith("sim=")]
         if len(sims) != 1 or not sims[0][4:].startswith(ctor):
             problems.append(f"solver is `{sims}`, expected {ctor}...")
+        tgt = store.split(",_=")[0]
+        nst = [x for x in t if x.startswith(tgt + "=") or x.startswith(tgt + ",")]
+        if len(nst) != 1:
+            problems.append(f"the new state `{tgt}` is assigned {len(nst)} times per step: it must be the solver's result only (no dependence on the previous state)")
         if store not in t:
             problems.append(f"new state is not the solver's first result (`{store}`)")
         elif sims and t.index(store) < t.index(sims[0]):
